@@ -49,7 +49,7 @@ def inventory_line(tier):
         print(f'[c12] inventory mode {mode} failed ({str(e)[:200]}); falling back to grep', file=sys.stderr)
         mode = 'grep-fallback'
         missing, stale, inv = c12_inventory.compare('grep')
-    ev = os.path.join(c12_inventory.VERIF, 'evidence')
+    ev = os.path.join(c12_inventory.VERIF, 'evidence', 'aux')     # not an evidence/<id>.json file: kept out of that directory's top level
     try:
         os.makedirs(ev, exist_ok=True)
         json.dump(dict(mode=mode, items=len(inv), missing=missing, stale=stale, inventory=inv),
